@@ -130,16 +130,27 @@ struct Val {
   bool isNan = false;
   long double a = 0, b = 0;  // the mathematical value lies in [a,b]
   i128 tlo = 0, thi = 0;     // trunc(a), trunc(b), clamped to +-2^100
+  int fa = 0, fb = 0;        // sign of a - trunc(a), of b - trunc(b)  (so that "a < n" is decided in integers)
   bool gapInf = false;       // parsed text beyond 1e300: +-inf also accepted for a floating target
   bool gapZero = false;      // parsed text below 1e-300: 0 also accepted
   bool exact() const { return a == b; }
+  bool whole() const { return a == b && fa == 0; }
+  bool below(i128 n) const { return tlo < n || (tlo == n && fa < 0); }  // a < n
+  bool above(i128 n) const { return thi > n || (thi == n && fb > 0); }  // b > n
 };
 
-inline i128 truncClamp(long double x) {
-  if (x > -0x1p63L && x < 0x1p63L) return i128(int64_t(x));  // C++ conversion truncates toward zero
+// trunc(x) clamped to +-2^100 and the sign of the discarded fraction
+inline i128 truncClamp(long double x, int& fracSign) {
+  fracSign = 0;
+  if (x > -0x1p63L && x < 0x1p63L) {
+    int64_t t = int64_t(x);  // C++ conversion truncates toward zero
+    long double back = (long double)t;
+    fracSign = (x > back) - (x < back);
+    return i128(t);
+  }
   if (x >= 0x1p100L) return i128(1) << 100;
   if (x <= -0x1p100L) return -(i128(1) << 100);
-  return i128(truncl(x));
+  return i128(truncl(x));  // |x| >= 2^63: a long double has no fraction bits left
 }
 
 inline Val ofInt(i128 i) {  // |i| < 2^64: exact in long double (64-bit significand)
@@ -156,15 +167,16 @@ inline Val ofFloating(long double f) {
     return v;
   }
   v.a = v.b = f;
-  v.tlo = v.thi = truncClamp(f);
+  v.tlo = v.thi = truncClamp(f, v.fa);
+  v.fb = v.fa;
   return v;
 }
 inline Val ofInterval(long double lo_, long double hi_) {
   Val v;
   v.a = lo_;
   v.b = hi_;
-  v.tlo = truncClamp(lo_);
-  v.thi = truncClamp(hi_);
+  v.tlo = truncClamp(lo_, v.fa);
+  v.thi = truncClamp(hi_, v.fb);
   return v;
 }
 template <class S>
@@ -175,105 +187,146 @@ inline Val ofStored(S x) {
     return ofFloating((long double)x);
 }
 
+// ---- the verdicts (not templates: the per-type code is only the observation below)
+
+#ifdef NXC_MODE_CONVERT32
+#  define NXC_HOT inline __attribute__((always_inline))
+#else
+#  define NXC_HOT inline
+#endif
+
+struct Lim {
+  i128 lo, hi;
+};
 template <class T>
-inline bool okIntegral(const Val& v, T r) {
-  if (v.isNan) return r == 0;
-  i128 R = i128(r);  // lowest(T) <= R <= highest(T) by construction
+constexpr Lim limOf() {
+  return Lim{lo<T>(), hi<T>()};
+}
+
+NXC_HOT bool okIntegralL(const Val& v, i128 R, Lim t) {  // t.lo <= R <= t.hi by construction
+  if (v.isNan) return R == 0;
   if (R >= v.tlo && R <= v.thi) return true;
-  if (R == 0) return v.a < (long double)lo<T>() || v.b > (long double)hi<T>();
+  if (R == 0) return v.below(t.lo) || v.above(t.hi);
   return false;
 }
 // 0 = in range and integral (the trivial case), 1 = must be zero, 2 = must truncate a fraction, 3 = don't-care sliver / interval
-template <class T>
-inline int classIntegral(const Val& v) {
+NXC_HOT int classIntegralL(const Val& v, Lim t) {
   if (v.isNan) return 1;
-  bool outside = v.a < (long double)lo<T>() || v.b > (long double)hi<T>();
-  bool someIn = v.thi >= lo<T>() && v.tlo <= hi<T>();
+  bool outside = v.below(t.lo) || v.above(t.hi);
+  bool someIn = v.thi >= t.lo && v.tlo <= t.hi;
   if (outside && !someIn) return 1;
   if (outside) return 3;
   if (!v.exact()) return 3;
-  return v.a == (long double)v.tlo ? 0 : 2;
+  return v.fa == 0 ? 0 : 2;
 }
-template <class T>
-inline std::string wantIntegral(const Val& v) {
+inline std::string wantIntegralL(const Val& v, Lim t) {
   if (v.isNan) return "0 (NaN)";
   std::string s;
-  bool outside = v.a < (long double)lo<T>() || v.b > (long double)hi<T>();
-  bool someIn = v.thi >= lo<T>() && v.tlo <= hi<T>();
+  bool outside = v.below(t.lo) || v.above(t.hi);
+  bool someIn = v.thi >= t.lo && v.tlo <= t.hi;
   if (someIn) s = v.tlo == v.thi ? dec(v.tlo) : "[" + dec(v.tlo) + ".." + dec(v.thi) + "]";
   if (outside) s += s.empty() ? "0" : " or 0";
   return s + " (v=" + ldstr(v.a) + (v.exact() ? "" : ".." + ldstr(v.b)) + ")";
 }
-
-template <class T>
-inline bool okFloating(const Val& v, T r) {
+NXC_HOT long double nearest(long double x, bool single) {  // round to nearest, overflow -> inf
+  return single ? (long double)static_cast<float>(x) : (long double)static_cast<double>(x);
+}
+NXC_HOT bool okFloatingL(const Val& v, long double r, bool single) {
   if (v.isNan) return r != r;
   if (r != r) return false;
-  T l = static_cast<T>(v.a), h = static_cast<T>(v.b);  // round to nearest, overflow -> inf
-  if (r >= l && r <= h) return true;
+  if (r >= nearest(v.a, single) && r <= nearest(v.b, single)) return true;
   if (v.gapInf && std::isinf(r) && (r > 0) == (v.a > 0)) return true;
   if (v.gapZero && r == 0) return true;
   return false;
 }
 template <class T>
-inline std::string wantFloating(const Val& v) {
-  if (v.isNan) return "NaN";
-  T l = static_cast<T>(v.a), h = static_cast<T>(v.b);
-  return l == h ? ldstr(l) : "[" + ldstr(l) + ".." + ldstr(h) + "]";
+inline bool okIntegral(const Val& v, T r) {
+  return okIntegralL(v, i128(r), limOf<T>());
 }
 template <class T>
-inline bool sameFloating(T x, T y) {
-  return x == y || (x != x && y != y);
+inline bool okFloating(const Val& v, T r) {
+  return okFloatingL(v, (long double)r, sizeof(T) == 4);
 }
+NXC_HOT bool sameLd(long double x, long double y) { return x == y || (x != x && y != y); }
 
 struct Stats {
   uint64_t conversions = 0, nontrivial = 0, dontcare = 0, zeroed = 0, fractional = 0, isTrue = 0;
 };
 
-// Judge as<T>(), is<T>() and operator| of `src` (a JsonDocument or a JsonVariantConst) against `v`.
-// Returns 0 when everything agrees, else the name of the violated clause; `detail` is only built on failure.
+// what the library answered for one target type
+struct Obs {
+  bool integral = false, single = false, is = false;
+  Lim lim{0, 0};
+  i128 ri = 0, di = 0, oi = 0;        // as<T>(), the default handed to operator|, (v | default)
+  long double rf = 0, df = 0, of = 0;  // the same for a floating T (every float/double is exact in long double)
+};
+inline bool sameObs(const Obs& x, const Obs& y) {
+  return x.is == y.is && x.ri == y.ri && x.oi == y.oi && sameLd(x.rf, y.rf) && sameLd(x.of, y.of);
+}
+inline std::string showObs(const Obs& o) {
+  return o.integral ? "as=" + dec(o.ri) + " is=" + (o.is ? "1" : "0") + " or=" + dec(o.oi)
+                    : "as=" + ldstr(o.rf) + " is=" + (o.is ? "1" : "0") + " or=" + ldstr(o.of);
+}
+
 template <class T, class Src>
-inline const char* judge(Src& src, const Val& v, Stats& st, std::string* detail) {
-  T r = src.template as<T>();
-  bool is = src.template is<T>();
-  st.conversions++;
+NXC_HOT Obs observe(Src& src, const Val& v) {
+  Obs o;
   if constexpr (std::is_integral<T>::value) {
-    int cls = classIntegral<T>(v);
+    o.integral = true;
+    o.lim = limOf<T>();
+    T d = T(v.tlo == 42 ? 43 : 42);
+    o.di = i128(d);
+    o.ri = i128(T(src.template as<T>()));
+    o.is = src.template is<T>();
+    o.oi = i128(T(src | d));
+  } else {
+    o.single = sizeof(T) == 4;
+    T d = T(42.5);
+    o.df = d;
+    o.rf = T(src.template as<T>());
+    o.is = src.template is<T>();
+    o.of = T(src | d);
+  }
+  return o;
+}
+
+// Judge as<T>(), is<T>() and operator| against the reference value.  Returns 0 when everything agrees, else the
+// name of the violated clause (explain() then says what was expected).
+NXC_HOT const char* judgeObs(const Obs& o, const Val& v, Stats& st) {
+  st.conversions++;
+  if (o.integral) {
+    int cls = classIntegralL(v, o.lim);
     if (cls) st.nontrivial++;
     if (cls == 1) st.zeroed++;
     if (cls == 2) st.fractional++;
     if (cls == 3) st.dontcare++;
-    if (!okIntegral<T>(v, r)) {
-      if (detail) *detail = "as<T>() = " + show(r) + ", want " + wantIntegral<T>(v);
-      return "as-integral";
-    }
-    bool fits = v.isInt && v.tlo >= lo<T>() && v.tlo <= hi<T>();
-    if (is != fits) {
-      if (detail) *detail = std::string("is<T>() = ") + (is ? "true" : "false") + ", stored " + (v.isInt ? "integer " : "non-integer ") + ldstr(v.a);
-      return "is-integral";
-    }
+    if (!okIntegralL(v, o.ri, o.lim)) return "as-integral";
+    bool fits = v.isInt && v.tlo >= o.lim.lo && v.tlo <= o.lim.hi;
+    if (o.is != fits) return "is-integral";
     if (fits) st.isTrue++;
-    T d = T(v.tlo == 42 ? 43 : 42);
-    T o = src | d;
-    T wantO = fits ? T(v.tlo) : d;
-    if (o != wantO) {
-      if (detail) *detail = "(v | " + show(d) + ") = " + show(o) + ", want " + show(wantO);
-      return "or-default";
-    }
+    if (o.oi != (fits ? v.tlo : o.di)) return "or-default";
   } else {
     if (v.isNan || !v.isInt) st.nontrivial++;
-    if (!okFloating<T>(v, r)) {
-      if (detail) *detail = "as<T>() = " + show(r) + ", want " + wantFloating<T>(v) + " (v=" + ldstr(v.a) + ")";
-      return "as-floating";
-    }
-    T d = T(42.5);
-    T o = src | d;
-    if (!sameFloating(o, is ? r : d)) {
-      if (detail) *detail = "(v | 42.5) = " + show(o) + " but is<T>() = " + (is ? "true" : "false") + " and as<T>() = " + show(r);
-      return "or-default";
-    }
+    if (!okFloatingL(v, o.rf, o.single)) return "as-floating";
+    if (!sameLd(o.of, o.is ? o.rf : o.df)) return "or-default";
   }
   return nullptr;
+}
+__attribute__((noinline, cold)) inline std::string explain(const Obs& o, const Val& v, const char* clause) {
+  std::string c = clause;
+  if (c == "as-integral") return "as<T>() = " + dec(o.ri) + ", want " + wantIntegralL(v, o.lim);
+  if (c == "is-integral")
+    return std::string("is<T>() = ") + (o.is ? "true" : "false") + ", stored " + (v.isInt ? "integer " : "non-integer ") + ldstr(v.a);
+  if (c == "as-floating") {
+    long double l = nearest(v.a, o.single), h = nearest(v.b, o.single);
+    return "as<T>() = " + ldstr(o.rf) + ", want " + (v.isNan ? std::string("NaN") : l == h ? ldstr(l) : "[" + ldstr(l) + ".." + ldstr(h) + "]") +
+           " (v=" + ldstr(v.a) + (v.exact() ? "" : ".." + ldstr(v.b)) + ")";
+  }
+  if (o.integral) {
+    bool fits = v.isInt && v.tlo >= o.lim.lo && v.tlo <= o.lim.hi;
+    return "(v | " + dec(o.di) + ") = " + dec(o.oi) + ", want " + dec(fits ? v.tlo : o.di);
+  }
+  return "(v | 42.5) = " + ldstr(o.of) + " but is<T>() = " + (o.is ? "true" : "false") + " and as<T>() = " + ldstr(o.rf);
 }
 
 // ------------------------------------------------------------------ mode convert32: all 2^32 patterns
@@ -285,21 +338,18 @@ inline S fromBits32(uint32_t u) {
   return x;
 }
 
-template <class S, class T>
-__attribute__((noinline, cold)) void report32(Ctx& C, const char* sname, const char* tname, S x, const char* clause,
-                                              JsonDocument& doc) {
-  if (C.metrics["failures"]++ >= 100000) return;  // the count stays exact, the records are capped anyway
-  Stats tmp;
-  std::string detail;
-  Val v = ofStored(x);
-  judge<T>(doc, v, tmp, &detail);
-  C.failKey("conv:" + std::string(sname) + ":" + bitsHex(x) + "->T=" + tname, clause, detail);
+template <class S>
+__attribute__((noinline, cold)) void report32(Ctx& C, const char* sname, const char* tname, S x, const char* clause, const Obs& o,
+                                              const Val& v) {
+  if (C.metrics["failures"]++ >= 100000) return;  // the count stays exact; the records are capped anyway
+  C.failKey("conv:" + std::string(sname) + ":" + bitsHex(x) + "->T=" + tname, clause, explain(o, v, clause));
 }
 
 template <class S, class T>
-inline void one32(Ctx& C, const char* sname, const char* tname, S x, const Val& v, JsonDocument& doc, Stats& st) {
-  const char* clause = judge<T>(doc, v, st, nullptr);
-  if (__builtin_expect(clause != nullptr, 0)) report32<S, T>(C, sname, tname, x, clause, doc);
+NXC_HOT void one32(Ctx& C, const char* sname, const char* tname, S x, const Val& v, JsonDocument& doc, Stats& st) {
+  Obs o = observe<T>(doc, v);
+  const char* clause = judgeObs(o, v, st);
+  if (__builtin_expect(clause != nullptr, 0)) report32<S>(C, sname, tname, x, clause, o, v);
 }
 
 constexpr bool kLongIsInt64 = std::is_same<long, int64_t>::value;
@@ -340,12 +390,13 @@ inline bool onGrid(uint32_t b) { return (b & 63) == 0 || (b & 63) == 63 || b < 6
 
 inline void runConvert32(Ctx& C) {
   const std::string sel = C.opt("blocks", C.thorough() ? "all" : "grid");
+  const bool all = sel == "all";
   static const char* kStorage[] = {"int32", "uint32", "float"};
   uint64_t blocksDone = 0;
   bool stopped = false;
   for (int s = 0; s < 3 && !stopped; s++) {
     for (uint32_t b = 0; b < 65536; b++) {
-      if (sel != "all" && !onGrid(b)) continue;
+      if (!all && !onGrid(b)) continue;
       if (!C.take()) continue;
       if (C.expired()) {
         stopped = true;
@@ -372,11 +423,11 @@ inline void runConvert32(Ctx& C) {
       C.end();
     }
   }
-  char nb[200];
+  char nb[500];
   snprintf(nb, sizeof nb,
            "convert32 %s: int32, uint32, float storage x 65536-value blocks x %d distinct target types "
            "(long/unsigned long are %s)%s",
-           sel == "all" ? "all 2^32 bit patterns" : "grid of 2304 blocks per storage kind", kDistinctTargets,
+           all ? "all 2^32 bit patterns" : "grid of 2172 blocks per storage kind (both blocks around every multiple of 2^22, the 64 lowest, the 64 highest)", kDistinctTargets,
            kLongIsInt64 ? "the same types as int64_t/uint64_t here and are exercised under those names" : "distinct types",
            stopped ? "; STOPPED by the deadline" : "");
   C.bound(nb);
@@ -525,51 +576,69 @@ inline Val ofParsedText(const std::string& lit, bool integerLiteral, i128 exactI
   return v;
 }
 
-template <class S, class T>
-inline void convCase(Ctx& C, S x, const char* tname) {
-  Val v = ofStored(x);
+// one stored value, independent of its C++ type
+struct Stored {
+  std::function<bool(JsonDocument&)> set;
+  Val v;
+  bool integerStorage = false;
+  bool finite = true;
+  std::string literal;  // its JSON spelling
+};
+template <class S>
+inline Stored stored(S x) {
+  Stored s;
+  s.set = [x](JsonDocument& doc) { return doc.set(x); };
+  s.v = ofStored(x);
+  s.integerStorage = std::is_integral<S>::value;
+  if constexpr (!std::is_integral<S>::value) s.finite = std::isfinite(x);
+  s.literal = literalOf(x);
+  return s;
+}
+
+// is<T>() => as<T>() agrees with as<U>() (and is<U>() holds) for every wider integral U
+inline void checkWider(Ctx& C, JsonVariantConst h, const Obs& o, const char* tname) {
+  if (!o.integral || !o.is) return;
+  forEachWide([&](auto u) {
+    using U = typename decltype(u)::type;
+    if (lo<U>() <= o.lim.lo && hi<U>() >= o.lim.hi) {
+      U w = h.as<U>();
+      if (i128(w) != o.ri)
+        C.fail("wider-agrees", std::string("as<") + tname + ">() = " + dec(o.ri) + " but as<" + u.name + ">() = " + dec(i128(w)));
+      if (!h.is<U>()) C.fail("wider-agrees", std::string("is<") + tname + ">() but not is<" + u.name + ">()");
+    }
+  });
+}
+
+template <class T>
+inline void convCase(Ctx& C, const Stored& s, const char* tname) {
+  const Val& v = s.v;
   Stats st;
-  std::string detail;
   {
     JsonDocument doc;
-    if (!doc.set(x)) {
+    if (!s.set(doc)) {
       C.fail("set", "doc.set() returned false");
       return;
     }
-    if (const char* clause = judge<T>(doc, v, st, &detail)) C.fail(clause, detail);
+    Obs od = observe<T>(doc, v);
+    if (const char* clause = judgeObs(od, v, st)) C.fail(clause, explain(od, v, clause));
     // the same through a JsonVariantConst handle
     JsonVariantConst h = doc.as<JsonVariantConst>();
-    if (const char* clause = judge<T>(h, v, st, &detail)) C.fail(std::string("handle-") + clause, detail);
-    // is<T>() => as<T>() agrees with as<U>() for every wider integral U
-    if constexpr (std::is_integral<T>::value) {
-      if (doc.is<T>()) {
-        T r = doc.as<T>();
-        forEachWide([&](auto u) {
-          using U = typename decltype(u)::type;
-          if (lo<U>() <= lo<T>() && hi<U>() >= hi<T>()) {
-            U w = doc.as<U>();
-            if (i128(w) != i128(r))
-              C.fail("wider-agrees", std::string("as<") + tname + ">() = " + show(r) + " but as<" + u.name + ">() = " + show(w));
-            if (!doc.is<U>()) C.fail("wider-agrees", std::string("is<") + tname + ">() but not is<" + u.name + ">()");
-          }
-        });
-      }
-    }
+    Obs oh = observe<T>(h, v);
+    if (!sameObs(od, oh)) C.fail("handle-differs", "document: " + showObs(od) + "; JsonVariantConst: " + showObs(oh));
+    checkWider(C, h, od, tname);
   }
   // the same number arriving as JSON text
-  bool finite = true;
-  if constexpr (!std::is_integral<S>::value) finite = std::isfinite(x);
-  if (finite) {
-    std::string lit = literalOf(x);
-    std::string text = "[" + lit + "]";
+  if (s.finite) {
+    std::string text = "[" + s.literal + "]";
     JsonDocument doc;
     DeserializationError err = deserializeJson(doc, text);
     if (err) {
       C.fail("text-parse", text + " -> " + err.c_str());
     } else {
-      Val tv = ofParsedText(lit, std::is_integral<S>::value, v.tlo);
+      Val tv = ofParsedText(s.literal, s.integerStorage, v.tlo);
       JsonVariantConst e = doc[0];
-      if (const char* clause = judge<T>(e, tv, st, &detail)) C.fail(std::string("text-") + clause, text + ": " + detail);
+      Obs ot = observe<T>(e, tv);
+      if (const char* clause = judgeObs(ot, tv, st)) C.fail(std::string("text-") + clause, text + ": " + explain(ot, tv, clause));
     }
   }
   C.metrics["conversions"] += double(st.conversions);
@@ -578,9 +647,9 @@ inline void convCase(Ctx& C, S x, const char* tname) {
   if (st.nontrivial) C.nontrivial();
   if constexpr (std::is_integral<T>::value) {
     static const char* kCls[] = {"exact", "zeroed", "truncated", "sliver"};
-    C.outcome(std::string(std::is_integral<S>::value ? "int->int:" : "fp->int:") + kCls[classIntegral<T>(v)]);
+    C.outcome(std::string(s.integerStorage ? "int->int:" : "fp->int:") + kCls[classIntegralL(v, limOf<T>())]);
   } else {
-    C.outcome(std::is_integral<S>::value ? "int->fp" : (v.isNan ? "nan->fp" : "fp->fp"));
+    C.outcome(s.integerStorage ? "int->fp" : (v.isNan ? "nan->fp" : "fp->fp"));
   }
 }
 
@@ -589,11 +658,12 @@ inline void convStorage(Ctx& C, const char* sname, const std::vector<S>& values)
   size_t n = 0;
   for (S x : values) {
     std::string hexbits = bitsHex(x);
+    Stored st = stored(x);
     forEachTarget([&](auto t) {
       using T = typename decltype(t)::type;
       if (!C.take()) return;
       C.begin("conv:" + std::string(sname) + ":" + hexbits + "->T=" + t.name);
-      convCase<S, T>(C, x, t.name);
+      convCase<T>(C, st, t.name);
       C.end();
     });
     if ((++n & 255) == 0 && C.expired()) return;
@@ -732,7 +802,6 @@ struct LinkedBuf {  // a zero-terminated copy in its own heap block: exactly siz
 template <class T>
 inline void strCase(Ctx& C, const std::string& s, const Val& v, bool isNumber, int kind, size_t pad) {
   Stats st;
-  std::string detail;
   LinkedBuf buf(s, pad);
   JsonDocument doc;
   bool ok = kind == 0 ? doc.set(static_cast<const char*>(buf.p)) : doc.set(s);
@@ -740,7 +809,8 @@ inline void strCase(Ctx& C, const std::string& s, const Val& v, bool isNumber, i
     C.fail("set", "doc.set(string) returned false");
     return;
   }
-  if (const char* clause = judge<T>(doc, v, st, &detail)) C.fail(std::string("str-") + clause, detail);
+  Obs od = observe<T>(doc, v);
+  if (const char* clause = judgeObs(od, v, st)) C.fail(std::string("str-") + clause, explain(od, v, clause));
   C.metrics["string_conversions"] += 1;
   bool nt = !isNumber || s.size() > 20 || st.nontrivial;
   if (nt) {
@@ -749,25 +819,22 @@ inline void strCase(Ctx& C, const std::string& s, const Val& v, bool isNumber, i
   }
   if constexpr (std::is_integral<T>::value) {
     static const char* kCls[] = {"exact", "zeroed", "truncated", "interval"};
-    C.outcome(std::string(isNumber ? "str->int:" : "notnum->int:") + kCls[classIntegral<T>(v)]);
+    C.outcome(std::string(isNumber ? "str->int:" : "notnum->int:") + kCls[classIntegralL(v, limOf<T>())]);
   } else {
     C.outcome(isNumber ? (v.exact() ? "str->fp:exact" : "str->fp:tolerance") : "notnum->fp");
   }
 }
 
-// all targets (or the reduced list) of one literal, both kinds
-inline void strLiteral(Ctx& C, const std::string& s, size_t pad, bool allTargets) {
+// all targets of one literal, both kinds
+inline void strLiteral(Ctx& C, const std::string& s, size_t pad) {
+  static std::set<std::string> seen;  // the families overlap on the shortest lengths: one case per literal
+  if (!seen.insert(s).second) return;
   bool isNumber = false;
   Val v = ofString(s, isNumber);
   std::string ab = abbreviate(s);
   for (int kind = 0; kind < 2; kind++) {
     forEachTarget([&](auto t) {
       using T = typename decltype(t)::type;
-      if (!allTargets) {
-        bool keep = std::is_same<T, int8_t>::value || std::is_same<T, int32_t>::value || std::is_same<T, uint64_t>::value ||
-                    std::is_same<T, float>::value || std::is_same<T, double>::value;
-        if (!keep) return;
-      }
       if (!C.take()) return;
       C.begin("str:" + ab + (kind == 0 ? "|kind=linked->T=" : "|kind=copied->T=") + t.name);
       strCase<T>(C, s, v, isNumber, kind, pad);
@@ -797,15 +864,14 @@ inline void runStrings(Ctx& C, bool full) {
   const size_t pad = full ? 64 : 0;
   // 1. strings that are not numbers -> 0 for every T, is<T>() false
   static const char* kNot[] = {"", "abc", "-", "x1", "1x", "1.2.3", "--1", "true", "null", "e5", "-e", "1 2", "0x10", "12345678901234567890x"};
-  for (const char* s : kNot) strLiteral(C, s, pad, true);
+  for (const char* s : kNot) strLiteral(C, s, pad);
   // 2. the families
   for (size_t n : lengths) {
     for (int fam = 0; fam < kFamilies; fam++) {
       std::string s = famString(fam, n);
       if (s.empty()) continue;
-      bool allT = full || n <= 40;
-      strLiteral(C, s, pad, allT);
-      strLiteral(C, "-" + s, pad, allT);
+      strLiteral(C, s, pad);
+      strLiteral(C, "-" + s, pad);
     }
     if (C.expired()) return;
   }
@@ -817,15 +883,14 @@ inline void runStrings(Ctx& C, bool full) {
       if (k == 0 && d < 0) continue;
       if (k == 1 && d < 0) continue;  // 2-1 = 1 = 2^0
       if (k == 0 && d > 0) continue;  // 1+1 = 2 = 2^1
-      strLiteral(C, dec(p), 16, true);
-      strLiteral(C, dec(-p), 16, true);
+      strLiteral(C, dec(p), 16);
+      strLiteral(C, dec(-p), 16);
     }
-  strLiteral(C, "0", 16, true);
-  strLiteral(C, "-0", 16, true);
+  strLiteral(C, "0", 16);
+  strLiteral(C, "-0", 16);
   char nb[200];
-  snprintf(nb, sizeof nb, "numeric strings: %d families x 2 signs x %zu lengths (%s) x linked/copied x %s; 2^k+-1 for k<=70; %zu non-numbers",
-           kFamilies, lengths.size(), full ? "every length 1..1300" : "length grid up to 1300",
-           full ? "14 targets" : "14 targets up to 40 characters, 5 targets beyond", sizeof kNot / sizeof kNot[0]);
+  snprintf(nb, sizeof nb, "numeric strings: %d families x 2 signs x %zu lengths (%s) x linked/copied x 14 targets; 2^k+-1 for k<=70; %zu non-numbers",
+           kFamilies, lengths.size(), full ? "every length 1..1300" : "length grid up to 1300", sizeof kNot / sizeof kNot[0]);
   C.bound(nb);
 }
 
@@ -1023,9 +1088,9 @@ inline void copy2d(Ctx& C) {
 static const char* kCharSrc[] = {"linked", "copied", "null", "int", "float", "bool", "array", "object", "unbound"};
 
 template <size_t N>
-inline void copyCharN(Ctx& C) {
+inline void copyCharN(Ctx& C, bool stringSources) {
   const std::string alphabet = "abcdefghijklmnopqrstuvwxyz";
-  for (int src = 0; src < 9; src++)
+  for (int src = stringSources ? 0 : 2; src < (stringSources ? 2 : 9); src++)
     for (size_t L = (N >= 2 ? N - 2 : 0); L <= N + 2; L++) {
       if (src >= 2 && L != N) continue;  // the length only matters for string sources
       for (int guarded = 0; guarded < 2; guarded++) {
@@ -1074,10 +1139,9 @@ inline void copyCharN(Ctx& C) {
 
 // char[3][N] from an array of r strings (and one non-string element)
 template <size_t N>
-inline void copyChar2d(Ctx& C) {
+inline void copyChar2d(Ctx& C, int mixed) {
   const std::string alphabet = "klmnopqrstuvwxyzabcdefghij";
-  for (size_t r = 0; r <= 4; r++)
-    for (int mixed = 0; mixed < 2; mixed++)
+  for (size_t r = 0; r <= 4; r++) {
       for (int guarded = 0; guarded < 2; guarded++) {
         if (!C.take()) continue;
         char kb[160];
@@ -1116,23 +1180,29 @@ inline void copyChar2d(Ctx& C) {
         C.nontrivial();
         C.end();
       }
+  }
 }
 
 inline void runCopyArray(Ctx& C) {
+  // the non-string sources first: on the unchanged tree they die under UBSan (memcpy from a null pointer), and a
+  // shard that dies loses the counters of the segment it was in
+  for (int pass = 0; pass < 2; pass++) {
+    bool strings = pass == 1;
+    copyCharN<1>(C, strings);
+    copyCharN<2>(C, strings);
+    copyCharN<3>(C, strings);
+    copyCharN<4>(C, strings);
+    copyCharN<5>(C, strings);
+    copyCharN<6>(C, strings);
+    copyCharN<16>(C, strings);
+    copyChar2d<1>(C, strings ? 0 : 1);
+    copyChar2d<2>(C, strings ? 0 : 1);
+    copyChar2d<4>(C, strings ? 0 : 1);
+  }
   copy1d<int>(C, "int");
   copy1d<uint8_t>(C, "uint8");
   copy1d<double>(C, "double");
   copy2d(C);
-  copyCharN<1>(C);
-  copyCharN<2>(C);
-  copyCharN<3>(C);
-  copyCharN<4>(C);
-  copyCharN<5>(C);
-  copyCharN<6>(C);
-  copyCharN<16>(C);
-  copyChar2d<1>(C);
-  copyChar2d<2>(C);
-  copyChar2d<4>(C);
   C.bound("copyArray: 1-D int/uint8/double, source length 0..6 x destination length 0..6 x {(T*,len), T(&)[N]} x 11 source kinds; "
           "2-D int[3][3] from 0..4 x 0..4 (uniform, ragged, scalar row); char[N] N in {1..6,16} x string length N-2..N+2 "
           "(linked, copied) and 7 non-string sources; char[3][N]; every destination both in an exactly-sized heap block and between guards");
